@@ -438,10 +438,11 @@ func runParent(ck *Check, tier Tier, nworkers int) int {
 			bound += " (NOT completed: internal deadline reached)"
 		}
 	}
-	sort.Slice(merged.Samples, func(i, j int) bool { return len(merged.Samples[i].Choices) < len(merged.Samples[j].Choices) })
+	sort.SliceStable(merged.Samples, func(i, j int) bool { return len(merged.Samples[i].Choices) < len(merged.Samples[j].Choices) })
 	samples := merged.Samples
 	if len(samples) > 8 {
-		samples = samples[:8]
+		// a spread: the three shortest and the five longest executions sampled
+		samples = append(append([]Sample{}, samples[:3]...), samples[len(samples)-5:]...)
 	}
 	var sampleAny []any
 	for _, s := range samples {
@@ -557,6 +558,19 @@ func runReplay(ck *Check, path string) int {
 	if sc == nil {
 		fmt.Fprintf(os.Stderr, "scenario %q not found\n", v.Scenario)
 		return exitHarness
+	}
+	if ck.CrashContained {
+		// the recorded execution may kill the process: try it in a child first
+		exe, _ := os.Executable()
+		entry := journalEntry(v.Scenario, v.Choices)
+		cmd := exec.Command(exe, "-prop", ck.ID, "-tier", tier.String(), "-exec", entry)
+		cmd.Env = append(os.Environ(), "VERIF_ROOT="+Root())
+		out, cerr := cmd.CombinedOutput()
+		if ee, ok := cerr.(*exec.ExitError); ok && ee.ExitCode() != exitWorkerErr {
+			fmt.Printf("replay of %s scenario=%s choices=%v: the process died\n%s\n", ck.ID, v.Scenario, v.Choices, tail(string(out), 3000))
+			fmt.Printf("VIOLATION property=%s replay=%s\n", ck.ID, path)
+			return exitViolation
+		}
 	}
 	c, err := Replay(ck.ID, tier, sc, v.Choices, v.Points)
 	if err != nil {
